@@ -34,6 +34,9 @@ CHECKS = {
  "C09": dict(engine="bitrot", cat="fault_enumeration", ref="3.8",
    text="Sections mode: a unit of 1..N reference-encoded sections of the six table types (after a clean PAT, followed by a clean unit on the same PID, traffic on other PIDs) is corrupted in its section bytes only - for a third of the runs EVERY single-bit flip of every section byte of the unit is executed (exhaustive per unit), another third gets seeded byte substitutions, bursts up to 32 bits, truncations and extensions. Delivered data on the unit's PID must be a subsequence of what the stream carries with every touched section absent (CRC collisions, judged by a bit-serial reference CRC, are counted and never reported), untouched units and other PIDs unchanged. Muxed mode (last third): Muxer histories with ES descriptors of all 23 typed kinds (0..n items, Length 0 or arbitrary) plus user-defined/unknown ones; every PAT/PMT packet must frame to exactly one section whose section_length bytes follow, CRC residue 0 under the reference CRC, only 0xFF behind.",
    note="Trusted: refts section encoders, framer and bit-serial CRC. Corruption is confined to table_id..last section byte. Whether a damaged unit yields an error or nothing is left open."),
+ "C16": dict(engine="tenants", cat="exploration", ref="3.9",
+   text="2..8 (thorough: up to 64) tenants - real goroutines, each with its own Demuxer on its own reference stream or its own Muxer history - share only the package-level bytes pool, backed by SimPool through the verif hook (LIFO/FIFO/seeded-pick/never-reuse, buffers poisoned on put and get). The tenant scheduler releases one goroutine at a time, switching at API boundaries and at the pool's before-get / after-get / before-put points per the scenario. Every returned Packet/DemuxerData is deep-dumped at delivery and re-compared by its owner after each later step and at the end; WriteData payloads likewise; each tenant's sequence must equal its solo run on a private never-reusing pool; pool gets/puts must balance. One run in eight is re-executed by a -race build in which the hand-offs are raw pipe syscalls the detector cannot see, so every pair of conflicting accesses by two tenants is reported independent of timing; a report with a library frame is a violation.",
+   note="Trusted: SimPool (stub of sync.Pool: put happens-before get of the same item, nothing more), baton scheduler, Go race detector. Needs the one hook (build tag verif). Preemption inside library code other than at pool points is not simulated; the HB-blind race pass covers what it could expose."),
  "C17": dict(engine="muxhist", cat="exploration", ref="3.4",
    text="Same histories; refinement against the MuxModel: tables before the first unit, automatic PAT+PMT exactly when the accepted-call count reaches the period or RAI on the PCR PID, nowhere else except explicit WriteTables; PMT content = model stream list in insertion order with type/descriptors/PCR PID; PAT maps program 1 to the PMT PID; automatic PIDs unique and outside reserved ranges; version +1 mod 32 iff content changed.",
    note="Trusted: MuxModel transition rules (DESIGN App. A). Calls rejected for an invalid argument may or may not count towards the period (both accepted)."),
